@@ -208,7 +208,7 @@ func GenEdit(t *rapid.T, old *Repo, o RepoGenOpts) (*Repo, string) {
 	for attempt := 0; attempt < 8; attempt++ {
 		op := rapid.SampledFrom([]string{
 			"edit-file", "edit-file", "edit-file", "edit-comment", "edit-same", "add-file", "remove-file", "rename-file",
-			"change-cmd", "salt", "rename-out", "add-src", "remove-src", "add-target", "remove-target", "text-content", "swap-content",
+			"change-cmd", "salt", "rename-out", "rename-out", "rename-out", "add-src", "remove-src", "add-target", "remove-target", "text-content", "swap-content",
 		}).Draw(t, "op")
 		if o.Cutoff && rapid.IntRange(0, 3).Draw(t, "cutoff") == 0 {
 			for i := range r.Files {
@@ -342,7 +342,19 @@ func GenEdit(t *rapid.T, old *Repo, o RepoGenOpts) (*Repo, string) {
 			tg.Salt = rapid.SampledFrom([]string{"", "s1", "s2"}).Draw(t, "salt")
 			return r, fmt.Sprintf("salt %s %q", tg.Label(), tg.Salt)
 		case "rename-out":
-			tg := pickTarget(t, r, "genrule")
+			// prefer a target that something depends on: the dependents' inputs change name, not bytes
+			var withDeps []*RTarget
+			for _, c := range r.Targets {
+				if c.Kind == "genrule" && len(c.Outs) == 1 && len(r.Dependents(c.Label())) > 0 {
+					withDeps = append(withDeps, c)
+				}
+			}
+			var tg *RTarget
+			if len(withDeps) > 0 && rapid.IntRange(0, 2).Draw(t, "with_dependents") > 0 {
+				tg = withDeps[rapid.IntRange(0, len(withDeps)-1).Draw(t, "pick")]
+			} else {
+				tg = pickTarget(t, r, "genrule")
+			}
 			if tg == nil || len(tg.Outs) != 1 {
 				continue
 			}
